@@ -1,8 +1,8 @@
 package agent
 
 import (
-	"fmt"
 	"bytes"
+	"fmt"
 	"io"
 	"testing"
 	"time"
